@@ -65,3 +65,28 @@ func init() {
 		}
 	}
 }
+
+func init() {
+	eng.Internal["dbg-g"] = func(args []string) {
+		for _, a := range args {
+			src := a
+			if u, err := strconv.Unquote(a); err == nil {
+				src = u
+			}
+			g, _, err := Compile(src)
+			fmt.Printf("== %q err=%v\n", src, err)
+			if g != nil {
+				for _, o := range g.Objects {
+					op := ""
+					if o.Style.Opacity != nil {
+						op = o.Style.Opacity.Value
+					}
+					fmt.Printf("  obj %s label=%q shape=%s opacity=%s\n", o.AbsID(), o.Label.Value, o.Shape.Value, op)
+				}
+				for _, e := range g.Edges {
+					fmt.Printf("  edge %s label=%q\n", e.AbsID(), e.Label.Value)
+				}
+			}
+		}
+	}
+}
